@@ -30,8 +30,8 @@ ASSUMPTIONS = [
 ]
 EXHAUSTIVE = {"quick": False, "thorough": True}
 PLAN = {"quick": dict(depth2=5000, depth3=0), "thorough": dict(depth2=None, depth3=60000)}
-FLOORS = {"quick": {"annotations_built": 5000, "passthrough_probes": 120, "rebuild_fingerprints": 5000, "leaf_kinds": 47, "constructors": 30, "generic_class_probes": 60, "bare_container_probes": 150, "iterator_probes": 300},
-          "thorough": {"annotations_built": 60000, "passthrough_probes": 120, "rebuild_fingerprints": 60000, "leaf_kinds": 47, "constructors": 30, "generic_class_probes": 80, "bare_container_probes": 200, "iterator_probes": 3000}}
+FLOORS = {"quick": {"annotations_built": 5000, "passthrough_probes": 120, "rebuild_fingerprints": 5000, "leaf_kinds": 47, "constructors": 30, "generic_class_probes": 60, "bare_container_probes": 150, "iterator_probes": 300, "bare_plain_probes": 100},
+          "thorough": {"annotations_built": 60000, "passthrough_probes": 120, "rebuild_fingerprints": 60000, "leaf_kinds": 47, "constructors": 30, "generic_class_probes": 80, "bare_container_probes": 200, "iterator_probes": 3000, "bare_plain_probes": 120}}
 
 MOD = "vtot_ns"
 SRC = '''
@@ -218,6 +218,42 @@ def passthrough_probe(sh, ctor, leaf, src, T):
             sh.violation("not-passthrough", annotation=src, direction=direction, got=short(r, 200))
 
 
+def bare_plain_probe(sh, ctor, leaf, src, T):
+    """Unparameterised containers over JSON-plain contents: nothing in them needs resolving, so the marshalled form is plain JSON data
+    (list / dict at the container's position) and the codec round trip gives the container back."""
+    if leaf not in BARE_CONTAINERS:
+        return
+    from vlib.oracles import json_plain
+
+    cls = BARE_CONTAINERS[leaf]
+    v = {"k": 1, "j": "a"} if cls is dict else cls([1, "a"])
+    shapes = {"<root>": v, "list": [v], "typing.List": [v], "dict": {"k": v}, "typing.Dict": {"k": v}, "tuplefix": (v, 1), "Optional": v, "pipe": v,
+              "tdfield": {"f": v}, "newtype": v, "alias": v, "Final": v}
+    if ctor not in shapes:
+        return
+    x = shapes[ctor]
+    sh.count("bare_plain_probes")
+    try:
+        with quiet():
+            m = typelib.marshal(x, t=T)
+    except Exception as e:  # noqa: BLE001
+        sh.violation("bare-container-routine-raised", annotation=src, direction="marshal", exc=type(e).__name__, detail=str(e)[:200])
+        return
+    ok, why = json_plain(m)
+    if not ok:
+        sh.violation("bare-container-not-plain", annotation=src, value=short(x, 120), output=short(m, 160), where=why)
+        return
+    try:
+        with quiet():
+            cdc = typelib.codec(T)
+            back = cdc.decode(cdc.encode(x))
+    except Exception as e:  # noqa: BLE001
+        sh.violation("bare-container-routine-raised", annotation=src, direction="codec round trip", exc=type(e).__name__, detail=str(e)[:200])
+        return
+    if canon(back, strict=True) != canon(x, strict=True):
+        sh.violation("bare-container-not-restored", annotation=src, value=short(x, 120), got=short(back, 160))
+
+
 ITER_CTORS = ("typing.Iterator", "abc.Iterator", "typing.Iterable", "abc.Iterable")
 
 
@@ -364,6 +400,7 @@ def check(sh, src, T, steps, leaf=None, ctor=None, outer=None, inner_src=None):
     passthrough_probe(sh, ctor, leaf, src, T)
     generic_probe(sh, ctor, leaf, src, T, namespace())
     iterator_probe(sh, outer, inner_src, src, T, namespace())
+    bare_plain_probe(sh, ctor, leaf, src, T)
     fp1 = fingerprint(built["unmarshaller"], built["marshaller"])
     served_permutation = permutation_served(T)
     try:
